@@ -74,6 +74,7 @@ type c04Rule struct {
 type c04Cred struct {
 	Name   string `json:"name"`
 	Secret string `json:"secret"`
+	NS     string `json:"ns,omitempty"`    // secretRef.namespace ("" = "creds")
 	Src    string `json:"src,omitempty"`   // "" = Secret | "none" = source None
 	NoRef  bool   `json:"noRef,omitempty"` // secret-sourced without a secretRef
 }
@@ -101,6 +102,16 @@ type c04Extra struct {
 type c04Secret struct {
 	Name string   `json:"name"`
 	Keys []string `json:"keys"`
+	NS   string   `json:"ns,omitempty"` // "" = "creds"
+}
+
+// c04SecKey identifies a Secret by namespace AND name ("name" in the default namespace
+// "creds", "ns/name" elsewhere); the value of key k of a Secret is "<c04SecKey>:k".
+func c04SecKey(ns, name string) string {
+	if ns == "" || ns == "creds" {
+		return name
+	}
+	return ns + "/" + name
 }
 
 type c04Scn struct {
@@ -357,11 +368,15 @@ func c04Run(s c04Scn) (c04Obs, []Mon) {
 	secData := map[string]map[string][]byte{}
 	for _, sec := range s.Secrets {
 		d := map[string][]byte{}
-		for _, k := range sec.Keys {
-			d[k] = []byte(sec.Name + ":" + k)
+		ns := sec.NS
+		if ns == "" {
+			ns = "creds"
 		}
-		st.Seed(&corev1.Secret{ObjectMeta: metav1.ObjectMeta{Name: sec.Name, Namespace: "creds"}, Data: d})
-		secData[sec.Name] = d
+		for _, k := range sec.Keys {
+			d[k] = []byte(c04SecKey(sec.NS, sec.Name) + ":" + k)
+		}
+		st.Seed(&corev1.Secret{ObjectMeta: metav1.ObjectMeta{Name: sec.Name, Namespace: ns}, Data: d})
+		secData[c04SecKey(sec.NS, sec.Name)] = d
 	}
 	// connection secret references of the XR and of composed objects
 	setRef := func(name string) func(u *unstructured.Unstructured) {
@@ -405,7 +420,11 @@ func c04Run(s c04Scn) (c04Obs, []Mon) {
 			ps.Input = &runtime.RawExtension{Raw: []byte(`["not", "an", "object"]`)}
 		}
 		for _, c := range sp.Creds {
-			fc := v1.FunctionCredentials{Name: c.Name, Source: v1.FunctionCredentialsSourceSecret, SecretRef: &xpv1.SecretReference{Namespace: "creds", Name: c.Secret}}
+			cns := c.NS
+			if cns == "" {
+				cns = "creds"
+			}
+			fc := v1.FunctionCredentials{Name: c.Name, Source: v1.FunctionCredentialsSourceSecret, SecretRef: &xpv1.SecretReference{Namespace: cns, Name: c.Secret}}
 			if c.Src == "none" {
 				fc.Source = v1.FunctionCredentialsSourceNone
 			}
@@ -519,7 +538,7 @@ func c04Run(s c04Scn) (c04Obs, []Mon) {
 				if c.Src == "none" || c.NoRef {
 					continue
 				}
-				d, ok := secData[c.Secret]
+				d, ok := secData[c04SecKey(c.NS, c.Secret)]
 				if !ok || failGet[c.Secret] {
 					prepared = false
 					continue
@@ -756,7 +775,7 @@ func c04Run(s c04Scn) (c04Obs, []Mon) {
 			if c.Src == "none" || c.NoRef {
 				continue
 			}
-			if _, ok := secData[c.Secret]; !ok || failGet[c.Secret] {
+			if _, ok := secData[c04SecKey(c.NS, c.Secret)]; !ok || failGet[c.Secret] {
 				prepared = false
 			}
 		}
@@ -798,6 +817,10 @@ func c04GenStep(r *Rng, i int) c04Step {
 		nc := r.Range(1, 2)
 		for j := 0; j < nc; j++ {
 			c := c04Cred{Name: Pick(r, []string{"c1", "c1", "c2"}), Secret: Pick(r, []string{"sec1", "sec2", "sec1", "sec2", "missing"})}
+			// the same Secret NAME in another namespace holds different data
+			if r.Chance(1, 3) {
+				c.NS = "other"
+			}
 			if r.Chance(1, 8) {
 				c.Src = "none"
 			}
@@ -829,7 +852,7 @@ func c04GenStep(r *Rng, i int) c04Step {
 			case 2:
 				rule.If = c04Cond{T: "credHas", K: Pick(r, []string{"c1", "c2"}), V: Pick(r, []string{"user", "token"})}
 			case 3:
-				rule.If = c04Cond{T: "credVal", K: Pick(r, []string{"c1", "c2"}), V: Pick(r, []string{"sec1:user", "sec2:token", "sec1:token"})}
+				rule.If = c04Cond{T: "credVal", K: Pick(r, []string{"c1", "c2"}), V: Pick(r, []string{"sec1:user", "sec2:token", "sec1:token", "other/sec1:user", "other/sec2:token"})}
 			case 4:
 				rule.If = c04Cond{T: "hasInput"}
 			}
@@ -901,7 +924,8 @@ func c04GenStep(r *Rng, i int) c04Step {
 }
 
 func c04Gen(r *Rng) c04Scn {
-	s := c04Scn{Refs: []xwRef{}, Objs: []xwObj{}, Cluster: []c04Extra{}, Secrets: []c04Secret{{Name: "sec1", Keys: []string{"user", "pass"}}, {Name: "sec2", Keys: []string{"token"}}}}
+	s := c04Scn{Refs: []xwRef{}, Objs: []xwObj{}, Cluster: []c04Extra{}, Secrets: []c04Secret{{Name: "sec1", Keys: []string{"user", "pass"}}, {Name: "sec2", Keys: []string{"token"}},
+		{Name: "sec1", NS: "other", Keys: []string{"user", "alt"}}, {Name: "sec2", NS: "other", Keys: []string{"token"}}}}
 	i := 0
 	for _, n := range c01RNames {
 		if !r.Chance(1, 3) {
